@@ -3,7 +3,7 @@ import Pun.Model.Grid
 # C08 model: focal intervals + masses → p-box
 
 `stacking` mirrors `pba/aggregation.py stacking(..., return_type="pbox")`:
-`make_vec_interval` (more than one interval, every `lo ≤ hi`), the weighted ecdf of the lower
+`make_vec_interval` (at least one interval, every `lo ≤ hi`), the weighted ecdf of the lower
 and of the upper endpoints, `Staircase.from_CDFbundle` (extend, look up every grid level with
 the 'next' rule) and the `left_right_switch` of the `Pbox` constructor.
 `DempsterShafer.to_pbox` is the same call; `Pbox.to_dss` lists the steps as focal intervals
@@ -36,7 +36,7 @@ def weightsOf (n : Nat) : Option (List Rat) → List Rat
 /-- `stacking(intervals, weights=w)` on grid `g` -/
 def stacking (g : List Rat) (lo hi : List Rat) (w : Option (List Rat)) : Except Err PB :=
   if lo.length ≠ hi.length then .error .Value
-  else if lo.length ≤ 1 then .error .Assertion            -- make_vec_interval: len(vec) > 1
+  else if lo.length < 1 then .error .Assertion            -- make_vec_interval: len(vec) >= 1
   else if !(allLE lo hi) then .error .Assertion            -- Interval heavy check lo ≤ hi
   else
     let ws := weightsOf lo.length w
